@@ -20,7 +20,7 @@ void vhook_out(int kind, const char* name, void* ptr, void* state);
 #define RLBOX_TRANSITION_ACTION_OUT(k, n, p, s) ::vhook_out((int)(k), n, p, s)
 '''
 GH = PRE_GHOST + ''' unsigned g_ins, g_outs, g_events; unsigned g_in_at, g_out_at; unsigned g_call_at;
-int g_in_kind, g_out_kind; unsigned long g_in_name, g_out_name, g_in_ptr, g_out_ptr, g_in_state, g_out_state; unsigned g_gcalls; int g_gret; unsigned g_armed;
+int g_in_kind, g_out_kind; unsigned long g_in_name, g_out_name, g_in_ptr, g_out_ptr, g_in_state, g_out_state; unsigned g_gcalls; int g_gret; unsigned g_armed_guards;
 '''
 HOOKS = '''
 void vhook_in(int kind, const char *name, void *ptr, void *state)
@@ -44,23 +44,26 @@ def invoke_inst(tier):
     # sees exactly one IN and no OUT yet, i.e. an armed guard that will announce the OUT
     stub = ('backend impl_invoke_with_func_ptr(stub)', _is('impl_invoke_with_func_ptr'),
             '__CPROVER_requires(g_ins == 1 && g_outs == 0) /*@call_is_inside_the_bracket*/\n'
+            '__CPROVER_requires(g_armed_guards == 1) /*@a_guard_that_announces_the_exit_is_armed_while_sandboxed_code_runs*/\n'
             '__CPROVER_ensures(g_gcalls == __CPROVER_old(g_gcalls) + 1 && g_call_at == g_events && $ret == g_gret)\n'
             '__CPROVER_ensures((unsigned long)((struct %s *)g_sb)->transition_state == g_state_after_call) /* sandboxed code may call back into code that sets a new transition state */\n'
             '__CPROVER_assigns(g_gcalls, g_call_at, ((struct %s *)g_sb)->transition_state)' % (SB, SB))
     dyn = ('dynamic_check(abort point inside the bracket)', _is('dynamic_check'),
-           '__CPROVER_requires(g_ins == 1 && g_outs == 0) /*@abort_point_has_an_armed_out_guard*/\n__CPROVER_ensures($0)\n__CPROVER_assigns()')
+           '__CPROVER_requires(g_ins == 1 && g_outs == 0) /*@abort_point_lies_inside_the_bracket*/\n'
+           '__CPROVER_requires(g_armed_guards == 1) /*@abort_point_has_an_armed_out_guard*/\n__CPROVER_ensures($0)\n__CPROVER_assigns()')
     cl = sb_req('$this') + [
-        ('fresh', '__CPROVER_requires(g_ins == 0 && g_outs == 0 && g_events == 0 && g_gcalls == 0 && g_sb == (void *)$this)'),
+        ('fresh', '__CPROVER_requires(g_ins == 0 && g_outs == 0 && g_events == 0 && g_gcalls == 0 && g_armed_guards == 0 && g_sb == (void *)$this)'),
+        ('every_guard_has_run', '__CPROVER_ensures(g_armed_guards == 0)'),
         ('exactly_one_in_and_one_out', '__CPROVER_ensures(g_ins == 1 && g_outs == 1 && g_events == 2)'),
         ('in_before_call_before_out', '__CPROVER_ensures(g_in_at == 0 && g_out_at == 1 && g_gcalls == 1 && g_call_at == 1)'),
         ('kind_is_invoke', '__CPROVER_ensures(g_in_kind == TR_INVOKE && g_out_kind == TR_INVOKE)'),
         ('payload_function_identity_and_the_state_current_at_each_notification', '__CPROVER_ensures(g_in_name == (unsigned long)$0 && g_out_name == (unsigned long)$0 && g_in_ptr == (unsigned long)$1 && g_out_ptr == (unsigned long)$1 && g_in_state == (unsigned long)__CPROVER_old($this->transition_state) && g_out_state == g_state_after_call && (unsigned long)$this->transition_state == g_state_after_call)'),
-        ('frame', '__CPROVER_assigns(g_ins, g_outs, g_events, g_in_at, g_out_at, g_in_kind, g_out_kind, g_in_name, g_out_name, g_in_ptr, g_out_ptr, g_in_state, g_out_state, g_gcalls, g_call_at, $this->transition_state)')]
-    h = REGIONS + SB_DECL + ('  g_sb = &sb; unsigned long in_state2; g_state_after_call = in_state2; uintptr_t in_state; sb.transition_state = (void *)in_state; g_ins = 0; g_outs = 0; g_events = 0; g_gcalls = 0; int in_ret; g_gret = in_ret; long in_a; uintptr_t in_fn;\n'
+        ('frame', '__CPROVER_assigns(g_ins, g_outs, g_events, g_in_at, g_out_at, g_in_kind, g_out_kind, g_in_name, g_out_name, g_in_ptr, g_out_ptr, g_in_state, g_out_state, g_gcalls, g_call_at, g_armed_guards, $this->transition_state)')]
+    h = REGIONS + SB_DECL + ('  g_sb = &sb; unsigned long in_state2; g_state_after_call = in_state2; uintptr_t in_state; sb.transition_state = (void *)in_state; g_ins = 0; g_outs = 0; g_events = 0; g_gcalls = 0; g_armed_guards = 0; int in_ret; g_gret = in_ret; long in_a; uintptr_t in_fn;\n'
                              '  struct %s r = $ROOT(&sb, "f", (void *)in_fn, &in_a);\n' % cs('rlbox::tainted<int, rlbox::vsbx>'))
     return Inst('c19_invoke_brackets', 'rlbox_sandbox<vsbx>& s, void* fp, long a', 's.INTERNAL_invoke_with_func_ptr<int(long)>("f", fp, a);', cl, h,
                 leaves=[dyn, stub], prop=PROP, root_name='INTERNAL_invoke_with_func_ptr', tier=tier, pre=GH + ' void *g_sb; unsigned long g_state_after_call;\n' + HOOKS, facts=FACTS,
-                opts={'extern_functions': ('vhook_in', 'vhook_out'), 'per_site_leaves': ()}, extra_replace=['vhook_in', 'vhook_out'],
+                opts={'extern_functions': ('vhook_in', 'vhook_out'), 'per_site_leaves': (), 'dtor_ghost': True}, extra_replace=['vhook_in', 'vhook_out'],
                 note='normal return: IN, backend call, OUT; abort points (argument/result conversion) lie inside the bracket with the guard armed')
 
 
@@ -90,6 +93,7 @@ def interceptor_inst(tier):
     TI = cs('rlbox::tainted<int, rlbox::vsbx>')
     post = ('struct %s app_cb_stub(void *target, struct %s *sb, struct %s a0)\n'
             '__CPROVER_requires(g_outs == 1 && g_ins == 0) /*@callback_body_is_inside_the_bracket*/\n'
+            '__CPROVER_requires(g_armed_guards == 1) /*@a_guard_that_announces_the_return_is_armed_while_the_callback_body_runs*/\n'
             '__CPROVER_requires(__CPROVER_rw_ok(sb, sizeof(*sb)))\n'
             '__CPROVER_ensures(g_gcalls == __CPROVER_old(g_gcalls) + 1 && g_call_at == g_events && __CPROVER_return_value.data == g_gret)\n'
             '__CPROVER_ensures((unsigned long)sb->transition_state == g_state_after_body) /* the callback body may set a new transition state */\n'
@@ -97,28 +101,30 @@ def interceptor_inst(tier):
     ctx = ('backend impl_get_executed_callback_sandbox_and_key(stub)', _is('impl_get_executed_callback_sandbox_and_key'),
            '__CPROVER_ensures(__CPROVER_pointer_equals($ret.first, g_cur_sbp))\n__CPROVER_ensures((unsigned long)$ret.second == g_cur_key)\n__CPROVER_assigns()')
     dyn = ('dynamic_check(abort point inside the bracket)', _is('dynamic_check'),
-           '__CPROVER_requires(g_outs == 1 && g_ins == 0) /*@abort_point_has_an_armed_in_guard*/\n__CPROVER_ensures($0)\n__CPROVER_assigns()')
-    cl = [('fresh', '__CPROVER_requires(g_ins == 0 && g_outs == 0 && g_events == 0 && g_gcalls == 0 && __CPROVER_r_ok((struct %s *)g_cur_sbp, sizeof(struct %s)))' % (SB, SB)),
+           '__CPROVER_requires(g_outs == 1 && g_ins == 0) /*@abort_point_lies_inside_the_bracket*/\n'
+           '__CPROVER_requires(g_armed_guards == 1) /*@abort_point_has_an_armed_in_guard*/\n__CPROVER_ensures($0)\n__CPROVER_assigns()')
+    cl = [('fresh', '__CPROVER_requires(g_ins == 0 && g_outs == 0 && g_events == 0 && g_gcalls == 0 && g_armed_guards == 0 && __CPROVER_r_ok((struct %s *)g_cur_sbp, sizeof(struct %s)))' % (SB, SB)),
+          ('every_guard_has_run', '__CPROVER_ensures(g_armed_guards == 0)'),
           ('exactly_one_out_and_one_in', '__CPROVER_ensures(g_ins == 1 && g_outs == 1 && g_events == 2)'),
           ('out_before_body_before_in', '__CPROVER_ensures(g_out_at == 0 && g_in_at == 1 && g_gcalls == 1 && g_call_at == 1)'),
           ('kind_is_callback', '__CPROVER_ensures(g_in_kind == TR_CALLBACK && g_out_kind == TR_CALLBACK)'),
           ('payload_function_identity', '__CPROVER_ensures(g_out_ptr == g_cur_key && g_in_ptr == g_cur_key)'),
           ('payload_no_name', '__CPROVER_ensures(g_out_name == 0 && g_in_name == 0)'),
           ('each_notification_carries_the_state_current_at_that_moment', '__CPROVER_ensures(g_out_state == (unsigned long)__CPROVER_old(((struct %s *)g_cur_sbp)->transition_state) && g_in_state == g_state_after_body && (unsigned long)((struct %s *)g_cur_sbp)->transition_state == g_state_after_body)' % (SB, SB)),
-          ('frame', '__CPROVER_assigns(g_ins, g_outs, g_events, g_in_at, g_out_at, g_in_kind, g_out_kind, g_in_name, g_out_name, g_in_ptr, g_out_ptr, g_in_state, g_out_state, g_gcalls, g_call_at, ((struct %s *)g_cur_sbp)->transition_state)' % SB)]
+          ('frame', '__CPROVER_assigns(g_ins, g_outs, g_events, g_in_at, g_out_at, g_in_kind, g_out_kind, g_in_name, g_out_name, g_in_ptr, g_out_ptr, g_in_state, g_out_state, g_gcalls, g_call_at, g_armed_guards, ((struct %s *)g_cur_sbp)->transition_state)' % SB)]
     h = ('  struct %s sb; g_cur_sbp = &sb; uintptr_t in_key; g_cur_key = in_key; uintptr_t in_state; sb.transition_state = (void *)in_state; unsigned long in_state2; g_state_after_body = in_state2;\n'
-         '  g_ins = 0; g_outs = 0; g_events = 0; g_gcalls = 0; int in_ret; g_gret = in_ret; int in_guest_arg; g_noabort = 0; g_backend_nonnull = 0; g_expect_example = 0;\n'
+         '  g_ins = 0; g_outs = 0; g_events = 0; g_gcalls = 0; g_armed_guards = 0; int in_ret; g_gret = in_ret; int in_guest_arg; g_noabort = 0; g_backend_nonnull = 0; g_expect_example = 0;\n'
          '  int r = $ROOT(in_guest_arg);\n' % SB)
     pick = lambda tu, fn: find_func(tu, 'sandbox_callback_interceptor', 'rlbox::rlbox_sandbox<rlbox::vsbx>')
     return Inst('c19_callback_brackets', 'rlbox_sandbox<vsbx>& s, tainted<int, vsbx> (*f)(rlbox_sandbox<vsbx>&, tainted<long, vsbx>)', 's.register_callback(f);', cl, h,
                 leaves=[dyn, ctx], prop=PROP, root_name='sandbox_callback_interceptor', tier=tier, pre=GH + ' void *g_cur_sbp; unsigned long g_cur_key; unsigned long g_state_after_body;\n' + HOOKS, post_protos=post,
-                root_pick=pick, facts=FACTS, opts={'extern_functions': ('vhook_in', 'vhook_out'), 'indirect_stubs': {'*': 'app_cb_stub'}, 'per_site_leaves': ()},
+                root_pick=pick, facts=FACTS, opts={'extern_functions': ('vhook_in', 'vhook_out'), 'indirect_stubs': {'*': 'app_cb_stub'}, 'per_site_leaves': (), 'dtor_ghost': True},
                 extra_replace=['vhook_in', 'vhook_out', 'app_cb_stub'], note='callback: OUT at entry, application function, IN at exit')
 
 
 # ---------------------------------------------------------------- transition timing (RLBOX_MEASURE_TRANSITION_TIMES)
 TIMING_CPP = '#define RLBOX_MEASURE_TRANSITION_TIMES\n'
-TG = PRE_GHOST + ''' unsigned g_records, g_gcalls, g_clock_reads; int g_rec_kind; unsigned long g_rec_name, g_rec_ptr; long g_rec_ns; unsigned g_rec_after_calls; int g_gret;
+TG = PRE_GHOST + ''' unsigned g_armed_guards; unsigned g_records, g_gcalls, g_clock_reads; int g_rec_kind; unsigned long g_rec_name, g_rec_ptr; long g_rec_ns; unsigned g_rec_after_calls; int g_gret;
 long vstd_clock_now(void)
 __CPROVER_ensures(g_clock_reads == __CPROVER_old(g_clock_reads) + 1 && __CPROVER_return_value >= 0 && __CPROVER_return_value < (1L << 62))
 __CPROVER_assigns(g_clock_reads);
@@ -131,18 +137,19 @@ __CPROVER_assigns(g_records, g_rec_kind, g_rec_name, g_rec_ptr, g_rec_ns, g_rec_
 def timing_invoke_inst(tier):
     stub = ('backend impl_invoke_with_func_ptr(stub)', _is('impl_invoke_with_func_ptr'),
             '__CPROVER_requires(g_records == 0) /*@record_is_written_after_the_call*/\n'
+            '__CPROVER_requires(g_armed_guards == 1) /*@the_guard_that_writes_the_record_is_armed_while_sandboxed_code_runs*/\n'
             '__CPROVER_ensures(g_gcalls == __CPROVER_old(g_gcalls) + 1 && $ret == g_gret)\n__CPROVER_assigns(g_gcalls)')
     cl = sb_req('$this') + [
-        ('fresh', '__CPROVER_requires(g_records == 0 && g_gcalls == 0 && g_clock_reads == 0)'),
+        ('fresh', '__CPROVER_requires(g_records == 0 && g_gcalls == 0 && g_clock_reads == 0 && g_armed_guards == 0)'),
         ('exactly_one_timing_record_per_crossing', '__CPROVER_ensures(g_records == 1 && g_gcalls == 1 && g_rec_after_calls == 1)'),
         ('record_describes_this_crossing', '__CPROVER_ensures(g_rec_kind == TR_INVOKE && g_rec_name == (unsigned long)$0 && g_rec_ptr == (unsigned long)$1)'),
         ('clock_read_at_entry_and_exit', '__CPROVER_ensures(g_clock_reads == 2)'),
-        ('frame', '__CPROVER_assigns(g_records, g_rec_kind, g_rec_name, g_rec_ptr, g_rec_ns, g_rec_after_calls, g_gcalls, g_clock_reads)')]
-    h = REGIONS + SB_DECL + ('  g_noabort = 0; g_records = 0; g_gcalls = 0; g_clock_reads = 0; int in_ret; g_gret = in_ret; long in_a; uintptr_t in_fn;\n'
+        ('frame', '__CPROVER_assigns(g_records, g_rec_kind, g_rec_name, g_rec_ptr, g_rec_ns, g_rec_after_calls, g_gcalls, g_clock_reads, g_armed_guards)')]
+    h = REGIONS + SB_DECL + ('  g_noabort = 0; g_armed_guards = 0; g_records = 0; g_gcalls = 0; g_clock_reads = 0; int in_ret; g_gret = in_ret; long in_a; uintptr_t in_fn;\n'
                              '  struct %s r = $ROOT(&sb, "f", (void *)in_fn, &in_a);\n' % cs('rlbox::tainted<int, rlbox::vsbx>'))
     return Inst('c19_invoke_timing_record', 'rlbox_sandbox<vsbx>& s, void* fp, long a', 's.INTERNAL_invoke_with_func_ptr<int(long)>("f", fp, a);', cl, h,
                 leaves=['dynamic_check', stub], prop=PROP, root_name='INTERNAL_invoke_with_func_ptr', tier=tier, pre=TG, facts=FACTS,
-                opts={'chrono_model': True}, extra_replace=['vstd_clock_now', 'vstd_timing_push'],
+                opts={'chrono_model': True, 'dtor_ghost': True}, extra_replace=['vstd_clock_now', 'vstd_timing_push'],
                 note='RLBOX_MEASURE_TRANSITION_TIMES: std::chrono as an opaque clock (M-chrono), transition_times.push_back as a recording stub')
 
 
@@ -151,22 +158,23 @@ def timing_callback_inst(tier):
     TI = cs('rlbox::tainted<int, rlbox::vsbx>')
     post = ('struct %s app_cb_stub(void *target, struct %s *sb, struct %s a0)\n'
             '__CPROVER_requires(g_records == 0) /*@record_is_written_after_the_callback_body*/\n'
+            '__CPROVER_requires(g_armed_guards == 1) /*@the_guard_that_writes_the_record_is_armed_while_the_callback_body_runs*/\n'
             '__CPROVER_ensures(g_gcalls == __CPROVER_old(g_gcalls) + 1 && __CPROVER_return_value.data == g_gret)\n'
             '__CPROVER_assigns(g_gcalls);\n' % (TI, SB, TL))
     ctx = ('backend impl_get_executed_callback_sandbox_and_key(stub)', _is('impl_get_executed_callback_sandbox_and_key'),
            '__CPROVER_ensures(__CPROVER_pointer_equals($ret.first, g_cur_sbp))\n__CPROVER_ensures((unsigned long)$ret.second == g_cur_key)\n__CPROVER_assigns()')
-    cl = [('fresh', '__CPROVER_requires(g_records == 0 && g_gcalls == 0 && g_clock_reads == 0 && __CPROVER_rw_ok((struct %s *)g_cur_sbp, sizeof(struct %s)))' % (SB, SB)),
+    cl = [('fresh', '__CPROVER_requires(g_records == 0 && g_gcalls == 0 && g_clock_reads == 0 && g_armed_guards == 0 && __CPROVER_rw_ok((struct %s *)g_cur_sbp, sizeof(struct %s)))' % (SB, SB)),
           ('exactly_one_timing_record_per_crossing', '__CPROVER_ensures(g_records == 1 && g_gcalls == 1 && g_rec_after_calls == 1)'),
           ('record_describes_this_crossing', '__CPROVER_ensures(g_rec_kind == TR_CALLBACK && g_rec_name == 0 && g_rec_ptr == g_cur_key)'),
           ('clock_read_at_entry_and_exit', '__CPROVER_ensures(g_clock_reads == 2)'),
-          ('frame', '__CPROVER_assigns(g_records, g_rec_kind, g_rec_name, g_rec_ptr, g_rec_ns, g_rec_after_calls, g_gcalls, g_clock_reads)')]
+          ('frame', '__CPROVER_assigns(g_records, g_rec_kind, g_rec_name, g_rec_ptr, g_rec_ns, g_rec_after_calls, g_gcalls, g_clock_reads, g_armed_guards)')]
     h = ('  struct %s sb; g_cur_sbp = &sb; uintptr_t in_key; g_cur_key = in_key;\n'
-         '  g_records = 0; g_gcalls = 0; g_clock_reads = 0; int in_ret; g_gret = in_ret; int in_guest_arg; g_noabort = 0; g_backend_nonnull = 0; g_expect_example = 0;\n'
+         '  g_armed_guards = 0; g_records = 0; g_gcalls = 0; g_clock_reads = 0; int in_ret; g_gret = in_ret; int in_guest_arg; g_noabort = 0; g_backend_nonnull = 0; g_expect_example = 0;\n'
          '  int r = $ROOT(in_guest_arg);\n' % SB)
     pick = lambda tu, fn: find_func(tu, 'sandbox_callback_interceptor', 'rlbox::rlbox_sandbox<rlbox::vsbx>')
     return Inst('c19_callback_timing_record', 'rlbox_sandbox<vsbx>& s, tainted<int, vsbx> (*f)(rlbox_sandbox<vsbx>&, tainted<long, vsbx>)', 's.register_callback(f);', cl, h,
                 leaves=['dynamic_check', ctx], prop=PROP, root_name='sandbox_callback_interceptor', tier=tier, pre=TG + ' void *g_cur_sbp; unsigned long g_cur_key;\n', post_protos=post,
-                root_pick=pick, facts=FACTS, opts={'indirect_stubs': {'*': 'app_cb_stub'}}, extra_replace=['vstd_clock_now', 'vstd_timing_push', 'app_cb_stub'],
+                root_pick=pick, facts=FACTS, opts={'indirect_stubs': {'*': 'app_cb_stub'}, 'dtor_ghost': True}, extra_replace=['vstd_clock_now', 'vstd_timing_push', 'app_cb_stub'],
                 note='RLBOX_MEASURE_TRANSITION_TIMES on the callback path')
 
 
@@ -185,6 +193,6 @@ ASSUMPTIONS = [
 ]
 TRUSTED = ['C++ scope-exit and unwinding order for the guard object']
 MANIFEST = {
-    'level_text': 'With the transition hooks bound to recording stubs, the instantiated invoke glue is proved to announce exactly one IN before and exactly one OUT after the backend call (and the callback interceptor one OUT before and one IN after the application function), with kind and function identity equal in both notifications and each carrying the per-sandbox transition state that is current at that moment (the crossing itself may change it), on every normally returning path; and every abort point (argument/result conversion checks) is proved to lie strictly inside the bracket, where the closing guard is armed. Nesting follows by composing these contracts.',
+    'level_text': 'With the transition hooks bound to recording stubs, the instantiated invoke glue is proved to announce exactly one IN before and exactly one OUT after the backend call (and the callback interceptor one OUT before and one IN after the application function), with kind and function identity equal in both notifications and each carrying the per-sandbox transition state that is current at that moment (the crossing itself may change it), on every normally returning path; and every abort point (argument/result conversion checks) is proved to lie strictly inside the bracket, where a closing guard is armed - a ghost counts the scope-exit guards that are alive (incremented where the guard object is created, decremented where its destructor runs), and every abort point, the backend call and the callback body require it to be 1. Nesting follows by composing these contracts.',
     'level_note': 'Reduced claim: the closing notification on an exceptional exit relies on the C++ guarantee that the armed guard\'s destructor runs during unwinding (trusted lowering L-dtor/L-throw). With RLBOX_MEASURE_TRANSITION_TIMES the same two functions are proved to read the clock at entry and exit and to append exactly one timing record per crossing, after the backend call / callback body, carrying the kind, name and function identity of that crossing.',
 }
